@@ -127,6 +127,29 @@ theorem thresholdOpenList_exactOn (cfg : OpenListCfg) (zeroBad : Bool) :
       obtain ⟨c, hc, rfl⟩ := List.mem_map.mp hx
       exact List.mem_map.mpr ⟨c, hrsub c hc, rfl⟩
 
+/-- **ThresholdOpenList is exact for every seat count** (every configuration), also when the party won more seats than
+    its list has members: exactly `min(n, |list|)` distinct list members — by `VL.C16.openlist_length_min` -/
+theorem thresholdOpenList_exactOn_any (cfg : OpenListCfg) (zeroBad : Bool) :
+    ListEvalExactOn (fun pv k lst => OpenListInputOK pv k lst ∧ ∃ n, k.asNat = .ok n)
+      (thresholdOpenListLeaf cfg zeroBad) := by
+  intro pv k lst out ⟨⟨votes, clist, hv, hl, hwf, hnd, hsub⟩, n, hk⟩ h
+  obtain ⟨r, hr, hlen, hrnd, hrsub⟩ := VL.C16.openlist_length_min cfg votes n clist hwf hnd hsub
+  unfold thresholdOpenListLeaf at h
+  simp only [hv, hk, hl, ok_bind] at h
+  have hlst := toCandList_eq lst clist hl
+  by_cases hz : (zeroBad && decide (n = 0)) = true
+  · simp only [hz, if_true] at h
+    cases h
+  · simp only [hz, Bool.false_eq_true, if_false] at h
+    rw [hr] at h
+    have hout : out = .list (r.map V.cand) := by cases h; rfl
+    refine ⟨n, clist.map V.cand, r.map V.cand, hk, hlst, hout, ?_, ?_, ?_⟩
+    · simp [hlen]
+    · exact List.Pairwise.map V.cand (fun a b hab e => hab (by cases e; rfl)) hrnd
+    · intro x hx
+      obtain ⟨c, hc, rfl⟩ := List.mem_map.mp hx
+      exact List.mem_map.mpr ⟨c, hrsub c hc, rfl⟩
+
 /-- party-list evaluation with open lists seats exactly as many list candidates as the party won, for a list
     evaluator that is exact on the inputs the wrapper hands it (`hok`: every seated party's list votes, seats and list) -/
 theorem partyList_open_seats_exactly_on (ok : V → V → V → Prop) (P : Sem) (le : ListSem)
